@@ -263,10 +263,37 @@ def locate_item_diff(x, y):
         if hasattr(x, attr) and hasattr(y, attr):
             try:
                 if not _safe_eq(getattr(x, attr), getattr(y, attr)):
+                    if attr == "effects" and _only_unused_forall_variables_differ(getattr(x, attr), getattr(y, attr)):
+                        return "effects:unused-forall-variable-dropped"
                     return attr
             except Exception:
                 continue
     return "other"
+
+
+def _only_unused_forall_variables_differ(ex, ey):
+    """True iff the two effect lists (or timing->effect-list dicts) differ only in effects whose written form carries forall
+    variables that do not occur in fluent/value/condition (an Effect state only the setters can produce; the constructor,
+    which the reader uses, drops such variables)."""
+    if isinstance(ex, dict) and isinstance(ey, dict):
+        if set(ex) != set(ey):
+            return False
+        return all(_safe_eq(ex[k], ey[k]) or _only_unused_forall_variables_differ(ex[k], ey[k]) for k in ex) and any(not _safe_eq(ex[k], ey[k]) for k in ex)
+    ex, ey = list(ex), list(ey)
+    if len(ex) != len(ey):
+        return False
+    found = False
+    for a, b in zip(ex, ey):
+        if _safe_eq(a, b):
+            continue
+        if not (a.fluent == b.fluent and a.value == b.value and a.condition == b.condition and a.kind == b.kind):
+            return False
+        fvo = a.fluent.environment.free_vars_oracle
+        free = set(fvo.get_free_variables(a.fluent)) | set(fvo.get_free_variables(a.value)) | set(fvo.get_free_variables(a.condition))
+        if set(b.forall) != {v for v in a.forall if v in free}:
+            return False
+        found = True
+    return found
 
 
 # ---- non-triviality (measured on the recipe / object) ---------------------------------------------------------
